@@ -8,14 +8,15 @@ size M, pages of P bytes).  This module
      invariants hold (page lists, contents vs sequence numbers, pageCache.used);
   2. switches the pre-fix shapes of the code on through constants (WRAP = M-1, ...) and requires TLC to produce a
      counterexample for each - the model must be able to find the defects that were repaired;
-  3. exports a seed-selected slice of the complete behaviours (configuration, operations, predicted events) from
-     the same TLC run, replays them on the real Assembler (harness/cmd/reasm_impl), compares predicted with observed
-     events and hook scalars (drift - reported, never a verdict), and has TLC validate what the real code did
-     against Reasm.tla (ReasmTrace.tla) - the only source of verdicts.
+  3. exports behaviours (configuration, operations, predicted events) - a seed-selected slice of all complete paths
+     of the exhaustive run, plus the behaviours visited by TLC's simulation mode on a larger bound (longer streams,
+     both directions, whole configuration grid) -, replays them on the real Assembler (harness/cmd/reasm_impl),
+     compares predicted with observed events and hook scalars (drift: reported, never a verdict), and has TLC validate
+     what the real code did against Reasm.tla (ReasmTrace.tla) - the only source of verdicts.
 
 `run_impl(ctx, verdict_for)` is the entry point (c09.py may call it with its own Verdict objects);
 tools/props/x09impl.py is the stand-alone check `bin/check X09IMPL`."""
-import json, os, shutil, time
+import json, os, re, shutil, time
 from concurrent.futures import ThreadPoolExecutor
 import vlib
 from vlib import log
@@ -23,12 +24,17 @@ from . import asmcommon as ac
 
 MODEL = {"M": 32, "P": 2}
 
-# one TLC run per plan: check + export (hash-selected slice: behaviours with hash % mod == seed % mod)
+# mode bfs: exhaustive check + export of the paths with hash % mod == seed % mod
+# mode sim: TLC simulation (random walks, invariants checked on every generated state; every complete behaviour
+#           generated at the last step of a walk is exported)
 PLANS = {
-    "quick": [dict(name="L3-ops4", L=3, dirs="{0}", ops=4, seglen=3, grid="MC_CfgsQuick", mod=64)],
-    "thorough": [dict(name="L3-ops4-full", L=3, dirs="{0}", ops=4, seglen=3, grid="MC_CfgsThorough", mod=96),
-                 dict(name="L4-ops4", L=4, dirs="{0}", ops=4, seglen=4, grid="MC_CfgsAll12", mod=64),
-                 dict(name="L3-ops3-bidir", L=3, dirs="{0,1}", ops=3, seglen=3, grid="MC_CfgsAll12", mod=8)],
+    "quick": [dict(name="L3-ops4", mode="bfs", L=3, dirs="{0}", ops=4, seglen=3, grid="MC_CfgsQuick", mod=48),
+              dict(name="sim-L5-ops6-bidir", mode="sim", L=5, dirs="{0,1}", ops=6, seglen=4, grid="MC_CfgsThorough", mod=1, walks=25, workers=4)],
+    "thorough": [dict(name="L3-ops4-full", mode="bfs", L=3, dirs="{0}", ops=4, seglen=3, grid="MC_CfgsThorough", mod=96),
+                 dict(name="L4-ops4", mode="bfs", L=4, dirs="{0}", ops=4, seglen=4, grid="MC_CfgsAll12", mod=64),
+                 dict(name="L3-ops3-bidir", mode="bfs", L=3, dirs="{0,1}", ops=3, seglen=3, grid="MC_CfgsAll12", mod=8),
+                 dict(name="sim-L5-ops6-bidir", mode="sim", L=5, dirs="{0,1}", ops=6, seglen=4, grid="MC_CfgsThorough", mod=1, walks=300, workers=4),
+                 dict(name="sim-L5-ops8", mode="sim", L=5, dirs="{0}", ops=8, seglen=5, grid="MC_CfgsThorough", mod=1, walks=300, workers=4)],
 }
 
 # pre-fix shapes of the code: each must make TLC violate ImplSatisfiesProp
@@ -43,7 +49,6 @@ DEFECTS = [
          what="cleanSG applies the KeepFrom offset again behind a live packet"),
 ]
 
-
 # design-level findings escalated beyond the exhaustive bound: one scripted scenario each, run through the model
 # (prediction + the model's own Judge verdict) and through the real code.  While ENFORCED is False a rejection of
 # the real behaviour is printed as FINDING-PROPOSED and recorded in the evidence without affecting the exit code
@@ -55,6 +60,8 @@ ESCALATIONS = [
 ]
 ESCALATED_ENFORCED = False
 
+INVS = "ImplSatisfiesProp HeapSane ContentMatchesSeq UsedExact NoFlags"
+
 
 def _subst(plan, seed, extra=None):
     s = {r"L = \d+": "L = %d" % plan["L"], r"Dirs = \{[^}]*\}": "Dirs = %s" % plan["dirs"],
@@ -65,29 +72,47 @@ def _subst(plan, seed, extra=None):
     return s
 
 
-def check_and_export(plan, seed, wd):
-    """TLC: ImplSatisfiesProp + structural invariants over the whole grid; returns (TLCResult, behaviours)."""
-    r = vlib.tlc("ReasmImplMC", workdir=wd, timeout=3000, workers=min(vlib.NCPU, 16), heap="24g", cfg_subst=_subst(plan, seed))
-    beh = [l[4:] for l in r.printed if isinstance(l, str) and l.startswith("BEH ")]
-    cex = [json.loads(l[4:]) for l in r.printed if isinstance(l, str) and l.startswith("CEX ")]
+# what distinguishes the two assemblers' Impl-layer checks (tcpasmimpl.py defines the other family)
+REASM = dict(name="reassembly", module="ReasmImplMC", spec="ReasmImpl.tla", source="/repo/reassembly/tcpassembly.go",
+             driver="./cmd/reasm_impl", subst=_subst, plans=PLANS, defects=DEFECTS, escalations=ESCALATIONS,
+             defect_plan=dict(L=3, dirs="{0}", ops=4, seglen=3, mod=1), invariants=INVS, scratch="x09impl")
+
+
+def _printed(r, tag):
+    return [l[len(tag):] for l in r.printed if isinstance(l, str) and l.startswith(tag)]
+
+
+def check_and_export(plan, seed, wd, fam=REASM):
+    """TLC: ImplSatisfiesProp + structural invariants; returns (TLCResult, behaviours, counterexamples)."""
+    if plan["mode"] == "sim":
+        r = vlib.tlc(fam["module"], workdir=wd, timeout=3000, workers=plan["workers"], heap="8g", cfg_subst=fam["subst"](plan, seed),
+                     simulate="num=%d" % plan["walks"], depth=plan["ops"] + 2, seed=seed)
+        m = re.search(r"The number of states generated: (\d+)", r.out)
+        r.generated = r.distinct = int(m.group(1)) if m else 0
+        if r.error and not r.violated and "Finished in" not in r.out:
+            raise vlib.Infra("TLC simulation failed on %s:\n%s" % (fam["module"], r.error))
+    else:
+        r = vlib.tlc(fam["module"], workdir=wd, timeout=3000, workers=min(vlib.NCPU, 16), heap="24g", cfg_subst=fam["subst"](plan, seed))
+    beh = list(dict.fromkeys(_printed(r, "BEH ")))
+    cex = [json.loads(l) for l in _printed(r, "CEX ")]
     return r, beh, cex
 
 
-def defect_run(d, wd):
+def defect_run(d, wd, fam=REASM):
     """The pre-fix shape must be refuted by TLC; returns dict with the counterexample."""
-    plan = dict(L=3, dirs="{0}", ops=4, seglen=3, grid=d["grid"], mod=1)
-    sub = _subst(plan, 0, d["subst"])
+    plan = dict(fam["defect_plan"], grid=d["grid"])
+    sub = fam["subst"](plan, 0, d["subst"])
     sub[r"ExportRem = \d+"] = "ExportRem = 1"          # nothing exported
     sub[r"INVARIANTS[^\n]*"] = "INVARIANTS ImplSatisfiesProp"
-    r = vlib.tlc("ReasmImplMC", workdir=wd, timeout=900, workers=2, cfg_subst=sub)
-    cex = [json.loads(l[4:]) for l in r.printed if isinstance(l, str) and l.startswith("CEX ")]
+    r = vlib.tlc(fam["module"], workdir=wd, timeout=900, workers=2, cfg_subst=sub)
+    cex = [json.loads(l) for l in _printed(r, "CEX ")]
     return {"name": d["name"], "what": d["what"], "repaired_by": d["fix"], "violated": r.violated, "states": r.distinct,
             "wall_s": round(r.wall, 1), "counterexample": cex[0] if cex else None}
 
 
 def design_note_half_pages(wd):
     """half.pages (the number the per-connection limit compares) against the pages actually linked: a statement about
-    the code's bookkeeping, not part of C09/C11 as stated - reported as a note."""
+    the code's bookkeeping; escalated to a C11 scenario in ESCALATIONS."""
     plan = dict(L=3, dirs="{0}", ops=3, seglen=3, grid="MC_CfgsKeep", mod=1)
     sub = _subst(plan, 0)
     sub[r"ExportRem = \d+"] = "ExportRem = 1"
@@ -95,36 +120,22 @@ def design_note_half_pages(wd):
     r = vlib.tlc("ReasmImplMC", workdir=wd, timeout=900, workers=1, cfg_subst=sub)
     return {"invariant": "HalfPagesExact", "violated_in_model": r.violated == "HalfPagesExact", "states": r.distinct,
             "meaning": "cleanSG converts a kept live packet into pages without counting them in half.pages, and addPending drops "
-                       "non-contiguous saved pages without uncounting them: half.pages drifts from the pages really held"}
+                       "non-contiguous saved pages without uncounting them: half.pages drifts from the pages really held "
+                       "(holds with constant PagesFix = TRUE, the proposed repair)"}
 
 
-def escalation_run(e, binp, wd):
-    """Scripted scenario: model prediction and model verdict (TLC), then the real code (replay, comparison, Judge)."""
-    plan = dict(L=e["L"], dirs="{0}", ops=e["ops"], seglen=e["seglen"], grid=e["grid"], mod=1)
-    sub = _subst(plan, 0, {r"Script <- \w+": "Script <- %s" % e["script"]})
-    sub[r"INVARIANTS[^\n]*"] = "INVARIANTS Export"
-    os.makedirs(wd, exist_ok=True)
-    r = vlib.tlc("ReasmImplMC", workdir=os.path.join(wd, "tlc"), timeout=900, workers=1, cfg_subst=sub)
-    beh = [l[4:] for l in r.printed if isinstance(l, str) and l.startswith("BEH ")]
-    if len(beh) != 1:
-        raise vlib.Infra("escalation %s: expected one scripted behaviour, got %d" % (e["name"], len(beh)))
-    b = json.loads(beh[0])
-    st, drift, tp = replay(binp, beh, plan, wd, "esc")
-    v, bad = validate(tp, "esc-" + e["name"])
-    return {"name": e["name"], "property": e["property"], "what": e["what"], "cfg": b["cfg"], "ops": b["ops"],
-            "model_judge": sorted(set(x[0] for x in b["verdicts"])) or ["accepted"],
-            "real_code_judge": [x[0]["reason"] for x in bad] or ["accepted"], "model_vs_code_drift": st["drift"],
-            "enforced": ESCALATED_ENFORCED, "_bad": bad}
+REASM["notes"] = [design_note_half_pages]
 
 
-def replay(binp, beh_lines, plan, wd, tag):
+def replay(binp, beh_lines, units, wd, tag):
     """model -> implementation.  Returns (stats, drift examples, trace path)."""
+    os.makedirs(wd, exist_ok=True)
     bp = os.path.join(wd, "beh-%s.ndjson" % tag)
     with open(bp, "w") as f:
         f.write("\n".join(beh_lines) + "\n")
     tp = os.path.join(wd, "trace-%s.ndjson" % tag)
     dp = os.path.join(wd, "drift-%s.ndjson" % tag)
-    p = vlib.run([binp, "-behaviours", bp, "-trace", tp, "-drift", dp, "-units", str(plan["L"]), "-M", str(MODEL["M"]),
+    p = vlib.run([binp, "-behaviours", bp, "-trace", tp, "-drift", dp, "-units", str(units), "-M", str(MODEL["M"]),
                   "-P", str(MODEL["P"])], timeout=3000, ok_codes=(0, 3))
     st = json.loads(p.stdout.strip().splitlines()[-1])
     return st, vlib.read_ndjson(dp), tp
@@ -137,12 +148,12 @@ def validate(tp, tag):
     if v["bad"]:
         ev = vlib.read_ndjson(tp)
         for b in v["bad"]:
-            evs = [e for e in ev[max(0, b["line"] - 60):b["line"]] if e.get("sc") == b["sc"]]
+            evs = [e for e in ev[max(0, b["line"] - 80):b["line"]] if e.get("sc") == b["sc"]]
             out.append((b, evs))
     return v, out
 
 
-def self_test(binp, beh_lines, plan, wd):
+def self_test(binp, beh_lines, units, wd):
     """Binding self-tests.  (a) drift comparison: predictions with one corrupted field must be reported as drift for
     exactly those behaviours.  (b) trace spec: a recorded good trace with one corrupted delivery must be rejected by
     ReasmTrace at that scenario, the pristine one accepted."""
@@ -160,7 +171,7 @@ def self_test(binp, beh_lines, plan, wd):
             e["skip"] = e["skip"] + 1 if e["skip"] >= 0 else 0
             want.add(i + 1)
         corrupted.append(json.dumps(b))
-    st, drift, tp = replay(binp, corrupted, plan, wd, "selftest")
+    st, drift, tp = replay(binp, corrupted, units, wd, "selftest")
     got = set(d["sc"] for d in drift)
     if got != want or st["drift"] != len(want):
         raise vlib.Infra("self-test: drift comparison reported %s, expected %s" % (sorted(got), sorted(want)))
@@ -181,116 +192,161 @@ def self_test(binp, beh_lines, plan, wd):
     return {"drift_comparison_corrupted_predictions_detected": len(want), "trace_spec_rejects_corrupted_delivery": v2["bad"][0]["reason"]}
 
 
-def run_impl(ctx, verdict_for, with_self_test=True):
+def plan_pipeline(plan, seed, binp, wd, want_self_test, fam=REASM):
+    """One plan: TLC (check + export) -> replay on the real code -> comparison -> trace validation."""
+    r, beh, cex = check_and_export(plan, seed, os.path.join(wd, "tlc"), fam)
+    rec = {"plan": plan, "tlc_states": r.distinct, "tlc_generated": r.generated, "depth": r.depth, "tlc_wall_s": round(r.wall, 1),
+           "invariants": fam["invariants"], "violated": r.violated, "behaviours_exported": len(beh)}
+    log("[impl] %s: %d states, %.1fs, violated=%s, %d behaviours exported" % (plan["name"], r.distinct, r.wall, r.violated, len(beh)))
+    extra = []
+    if r.violated:
+        # a design-level counterexample of the transcription is not a verdict about the code: it is replayed
+        rec["model_counterexamples"] = cex[:3]
+        extra = [json.dumps({"cfg": c["cfg"], "ops": c["ops"]}) for c in cex[:20]]
+    if not beh and not extra:
+        raise vlib.Infra("%s exported no behaviours for plan %s" % (fam["module"], plan["name"]))
+    t1 = time.time()
+    st, drift, tp = replay(binp, beh + extra, plan["L"], wd, "main")
+    t2 = time.time()
+    selft = None
+    with ThreadPoolExecutor(max_workers=2) as ex:
+        fs = ex.submit(self_test, binp, beh, plan["L"], os.path.join(wd, "selftest")) if want_self_test else None
+        v, bad = validate(tp, plan["name"])
+        if fs is not None:
+            try:
+                selft = fs.result()
+            except vlib.Infra as e:
+                selft = e
+    log("[impl] %s: replay %.1fs (%d behaviours, drift %d), trace validation %.1fs (%d events, %d rejected)"
+        % (plan["name"], t2 - t1, st["scenarios"], st["drift"], time.time() - t2, st["events"], v["nbad"]))
+    rec.update({"replayed": st["scenarios"], "events": st["events"], "compared_events": st["compared_events"],
+                "drift": st["drift"], "drift_kinds": st["drift_kinds"], "deliveries": st["deliveries"],
+                "deliveries_with_skip": st["deliveries_with_skip"], "deliveries_with_saved": st["deliveries_with_saved"],
+                "trace_states": v["states"], "rejected": v["nbad"]})
+    with open(tp) as f:
+        samples = [json.loads(next(f)) for _ in range(6)]
+    os.remove(tp)
+    return {"rec": rec, "bad": bad, "drift": drift, "samples": samples, "self_test": selft, "nbeh": len(beh)}
+
+
+def escalation_run(e, binp, wd, fam=REASM):
+    """Scripted scenario: model prediction and model verdict (TLC), then the real code (replay, comparison, Judge)."""
+    plan = dict(L=e["L"], dirs="{0}", ops=e["ops"], seglen=e["seglen"], grid=e["grid"], mod=1)
+    sub = fam["subst"](plan, 0, {r"Script <- \w+": "Script <- %s" % e["script"]})
+    sub[r"INVARIANTS[^\n]*"] = "INVARIANTS Export"
+    r = vlib.tlc(fam["module"], workdir=os.path.join(wd, "tlc"), timeout=900, workers=1, cfg_subst=sub)
+    beh = _printed(r, "BEH ")
+    if len(beh) != 1:
+        raise vlib.Infra("escalation %s: expected one scripted behaviour, got %d" % (e["name"], len(beh)))
+    b = json.loads(beh[0])
+    st, drift, tp = replay(binp, beh, e["L"], wd, "esc")
+    v, bad = validate(tp, "esc-" + e["name"])
+    return {"name": e["name"], "property": e["property"], "what": e["what"], "cfg": b["cfg"], "ops": b["ops"],
+            "model_judge": sorted(set(x[0] for x in b["verdicts"])) or ["accepted"],
+            "real_code_judge": [x[0]["reason"] for x in bad] or ["accepted"], "model_vs_code_drift": st["drift"],
+            "enforced": ESCALATED_ENFORCED, "_bad": bad}
+
+
+def cex_pipeline(fdefects, binp, wd):
+    """The counterexamples of the pre-fix shapes are replayed on the real code: today's code must not show them."""
+    runs = [f.result() for f in fdefects]
+    for d in runs:
+        if d["violated"] != "ImplSatisfiesProp" or not d["counterexample"]:
+            raise vlib.Infra("defect-finding run %s: TLC did not refute the pre-fix shape (violated=%s)" % (d["name"], d["violated"]))
+    lines = [json.dumps({"cfg": d["counterexample"]["cfg"], "ops": d["counterexample"]["ops"]}) for d in runs]
+    st, _, tp = replay(binp, lines, 3, wd, "cex")
+    v, bad = validate(tp, "cex")
+    for b, evs in bad:
+        runs[b["sc"] - 1]["real_code"] = "REJECTED by Reasm!Judge: %s" % b["reason"]
+    for d in runs:
+        d.setdefault("real_code", "accepted by Reasm!Judge (the real code does not show the model's counterexample)")
+    return runs, bad
+
+
+def run_impl(ctx, verdict_for, with_self_test=True, fam=REASM):
     """Runs the whole Impl-layer pipeline.  verdict_for(reason) -> vlib.Verdict that owns a rejection with that reason
     (delivery reasons belong to C09, lifecycle reasons to C11).  Returns the coverage dict for the evidence."""
     t0 = time.time()
-    wd = vlib.scratch("x09impl-%s" % ctx.tier)
-    binp = vlib.go_build("./cmd/reasm_impl")
-    plans = PLANS[ctx.tier]
-    cov = {"model": dict(MODEL, module="ReasmImpl.tla / ReasmImplMC.tla", transcribes="/repo/reassembly/tcpassembly.go"),
+    wd = vlib.scratch("%s-%s" % (fam["scratch"], ctx.tier))
+    binp = vlib.go_build(fam["driver"])
+    plans = fam["plans"][ctx.tier]
+    cov = {"model": dict(MODEL, module="%s / %s.tla" % (fam["spec"], fam["module"]), transcribes=fam["source"]),
            "plans": [], "defect_finding_runs": [], "impl_drift": {"behaviours_with_drift": 0, "kinds": {}, "examples": []},
            "states": 0, "transitions": 0, "traces_validated_against_impl": 0, "trace_events_validated": 0,
            "events_compared_model_vs_code": 0, "rejected_real_scenarios": 0, "samples": []}
 
-    with ThreadPoolExecutor(max_workers=6) as ex:
-        # defect-finding configurations and the bookkeeping note run beside the main check (small state spaces)
-        fd = [ex.submit(defect_run, d, os.path.join(wd, "defect-" + d["name"])) for d in DEFECTS]
-        fn = ex.submit(design_note_half_pages, os.path.join(wd, "note"))
-        fe = [ex.submit(escalation_run, e, binp, os.path.join(wd, "esc-" + e["name"])) for e in ESCALATIONS]
-        fself = None
-        for pi, plan in enumerate(plans):
-            r, beh, cex = check_and_export(plan, ctx.seed, os.path.join(wd, "mc-%d" % pi))
-            rec = {"plan": plan, "tlc_states": r.distinct, "tlc_generated": r.generated, "depth": r.depth, "tlc_wall_s": round(r.wall, 1),
-                   "invariants": "ImplSatisfiesProp HeapSane ContentMatchesSeq UsedExact NoFlags", "violated": r.violated,
-                   "behaviours_exported": len(beh)}
-            cov["states"] += r.distinct
-            cov["transitions"] += r.generated
-            log("[impl] %s: %d states, %.1fs, violated=%s, %d behaviours exported" % (plan["name"], r.distinct, r.wall, r.violated, len(beh)))
-            if not beh:
-                raise vlib.Infra("ReasmImplMC exported no behaviours for plan %s" % plan["name"])
-            nbeh = len(beh)
-            extra = []          # (what, record) of behaviours replayed without a prediction
-            if r.violated:
-                # a design-level counterexample of the transcription is not a verdict about the code: it is replayed
-                rec["model_counterexamples"] = cex[:3]
-                extra += [("model-counterexample", c) for c in cex[:20]]
-            if pi == 0:
-                # the counterexamples of the pre-fix shapes are replayed on the real code: today's code must not show them
-                cov["defect_finding_runs"] = [f.result() for f in fd]
-                for d in cov["defect_finding_runs"]:
-                    if d["violated"] != "ImplSatisfiesProp" or not d["counterexample"]:
-                        raise vlib.Infra("defect-finding run %s: TLC did not refute the pre-fix shape (violated=%s)" % (d["name"], d["violated"]))
-                    extra.append((d["name"], d["counterexample"]))
-            t1 = time.time()
-            st, drift, tp = replay(binp, beh + [json.dumps({"cfg": c["cfg"], "ops": c["ops"]}) for _, c in extra], plan, wd, "p%d" % pi)
-            if st.get("hang"):
-                log("[impl] driver watchdog fired")
-            if pi == 0 and with_self_test:
-                fself = ex.submit(self_test, binp, beh, plan, wd)
-            t2 = time.time()
-            v, bad = validate(tp, "p%d" % pi)
-            log("[impl] %s: replay %.1fs (%d behaviours, drift %d), trace validation %.1fs (%d events, %d rejected)"
-                % (plan["name"], t2 - t1, st["scenarios"], st["drift"], time.time() - t2, st["events"], v["nbad"]))
-            rec.update({"replayed": st["scenarios"], "events": st["events"], "compared_events": st["compared_events"],
-                        "drift": st["drift"], "deliveries": st["deliveries"], "deliveries_with_skip": st["deliveries_with_skip"],
-                        "deliveries_with_saved": st["deliveries_with_saved"], "trace_states": v["states"], "rejected": v["nbad"]})
+    def reject(b, evs, **more):
+        V = verdict_for(b["reason"])
+        if V is not None:
+            payload = {"driver": "reasm_impl", "bad": b, "events": evs, "model": MODEL}
+            payload.update(more)
+            V.reject({"assembler": b["asm"], "reason": b["reason"], "op": b["op"]}, payload)
+
+    with ThreadPoolExecutor(max_workers=12) as ex:
+        # everything is independent: plans (TLC -> replay -> validation), defect-finding configurations (small state
+        # spaces) with the replay of their counterexamples, the bookkeeping note, the scripted escalations
+        fd = [ex.submit(defect_run, d, os.path.join(wd, "defect-" + d["name"]), fam) for d in fam["defects"]]
+        fc = ex.submit(cex_pipeline, fd, binp, os.path.join(wd, "cex"))
+        fn = [ex.submit(f, os.path.join(wd, "note-%d" % i)) for i, f in enumerate(fam.get("notes", []))]
+        fe = [ex.submit(escalation_run, e, binp, os.path.join(wd, "esc-" + e["name"]), fam) for e in fam["escalations"]]
+        # the exhaustive plans one after the other (each uses all cores), the simulations beside them
+        seq = [p for p in plans if p["mode"] == "bfs"]
+        par = [p for p in plans if p["mode"] == "sim"]
+        fpar = [ex.submit(plan_pipeline, p, ctx.seed, binp, os.path.join(wd, "plan-" + p["name"]), False, fam) for p in par]
+        results = []
+        for i, p in enumerate(seq):
+            results.append(plan_pipeline(p, ctx.seed, binp, os.path.join(wd, "plan-" + p["name"]), with_self_test and i == 0, fam))
+        results += [f.result() for f in fpar]
+        for res in results:
+            rec = res["rec"]
             cov["plans"].append(rec)
-            cov["states"] += v["states"]
-            cov["traces_validated_against_impl"] += st["scenarios"]
-            cov["trace_events_validated"] += st["events"]
-            cov["events_compared_model_vs_code"] += st["compared_events"]
-            cov["rejected_real_scenarios"] += v["nbad"]
-            cov["impl_drift"]["behaviours_with_drift"] += st["drift"]
-            for k, n in st["drift_kinds"].items():
+            cov["states"] += rec["tlc_states"] + rec["trace_states"]
+            cov["transitions"] += rec["tlc_generated"]
+            cov["traces_validated_against_impl"] += rec["replayed"]
+            cov["trace_events_validated"] += rec["events"]
+            cov["events_compared_model_vs_code"] += rec["compared_events"]
+            cov["rejected_real_scenarios"] += rec["rejected"]
+            cov["impl_drift"]["behaviours_with_drift"] += rec["drift"]
+            for k, n in rec["drift_kinds"].items():
                 cov["impl_drift"]["kinds"][k] = cov["impl_drift"]["kinds"].get(k, 0) + n
-            cov["impl_drift"]["examples"] += drift[:max(0, 8 - len(cov["impl_drift"]["examples"]))]
-            if not cov["samples"]:
-                with open(tp) as f:
-                    cov["samples"] = [json.loads(next(f)) for _ in range(6)]
-            for b, evs in bad:
-                payload = {"driver": "reasm_impl", "bad": b, "events": evs, "plan": plan, "model": MODEL}
-                if b["sc"] > nbeh:
-                    what, c = extra[b["sc"] - nbeh - 1]
-                    payload["counterexample_of"] = what
-                    for d in cov["defect_finding_runs"]:
-                        if d["name"] == what:
-                            d["real_code"] = "REJECTED by Reasm!Judge: %s" % b["reason"]
-                V = verdict_for(b["reason"])
-                if V is not None:
-                    V.reject({"assembler": b["asm"], "reason": b["reason"], "op": b["op"]}, payload)
-            os.remove(tp)
-        for d in cov["defect_finding_runs"]:
-            d.setdefault("real_code", "accepted by Reasm!Judge (the real code does not show the model's counterexample)")
-        cov["design_notes"] = [fn.result()]
+            cov["impl_drift"]["examples"] += res["drift"][:max(0, 8 - len(cov["impl_drift"]["examples"]))]
+            cov["samples"] = cov["samples"] or res["samples"]
+            for b, evs in res["bad"]:
+                reject(b, evs, plan=rec["plan"], model_counterexample=b["sc"] > res["nbeh"])
+        runs, bad = fc.result()
+        cov["defect_finding_runs"] = runs
+        cov["traces_validated_against_impl"] += len(runs)
+        cov["rejected_real_scenarios"] += len(bad)
+        for b, evs in bad:
+            reject(b, evs, counterexample_of=runs[b["sc"] - 1]["name"])
+        cov["design_notes"] = [f.result() for f in fn]
         cov["escalated_scenarios"] = []
         for f in fe:
             e = f.result()
-            bad = e.pop("_bad")
+            ebad = e.pop("_bad")
             cov["escalated_scenarios"].append(e)
             cov["traces_validated_against_impl"] += 1
-            for bb, evs in bad:
+            for bb, evs in ebad:
                 if ESCALATED_ENFORCED:
-                    V = verdict_for(bb["reason"])
-                    if V is not None:
-                        V.reject({"assembler": bb["asm"], "reason": bb["reason"], "op": bb["op"]},
-                                 {"driver": "reasm_impl", "bad": bb, "events": evs, "escalation": e["name"], "model": MODEL})
+                    reject(bb, evs, escalation=e["name"])
                 else:
                     log("FINDING-PROPOSED: property=%s %s: real code rejected by Reasm!Judge (%s) on scripted scenario cfg=%s ops=%s "
                         "[not enforced: see ESCALATED_ENFORCED in tools/props/reasmimpl.py]"
                         % (e["property"], e["name"], bb["reason"], json.dumps(e["cfg"]), json.dumps(e["ops"])))
-        if fself is not None:
-            try:
-                cov["binding_self_tests"] = fself.result()
-            except vlib.Infra:
+        deviates = cov["rejected_real_scenarios"] > 0 or cov["impl_drift"]["behaviours_with_drift"] > 0
+        for res in results:
+            s = res["self_test"]
+            if isinstance(s, vlib.Infra):
                 # the self-test presupposes a code base the model agrees with; with drift or rejections it is moot
-                if cov["rejected_real_scenarios"] == 0 and cov["impl_drift"]["behaviours_with_drift"] == 0:
-                    raise
-                cov["binding_self_tests"] = "skipped (real code deviates from the model in this run)"
+                if not deviates:
+                    raise s
+                cov["binding_self_tests"] = "skipped (the real code deviates from the model in this run)"
+            elif s is not None:
+                cov["binding_self_tests"] = s
     cov["impl_wall_s"] = round(time.time() - t0, 1)
     if cov["impl_drift"]["behaviours_with_drift"]:
-        log("IMPL-DRIFT: %d replayed behaviours differ from the prediction of ReasmImpl.tla (kinds %s) - not a verdict"
-            % (cov["impl_drift"]["behaviours_with_drift"], cov["impl_drift"]["kinds"]))
+        log("IMPL-DRIFT: %d replayed behaviours differ from the prediction of %s (first differing event: %s) - not a verdict"
+            % (cov["impl_drift"]["behaviours_with_drift"], fam["spec"], cov["impl_drift"]["kinds"]))
         for d in cov["impl_drift"]["examples"][:2]:
             log("  e.g. cfg=%s ops=%s op#%d\n    predicted %s\n    observed  %s" % (d["cfg"], d["ops"], d["op_index"], d["predicted"], d["observed"]))
     shutil.rmtree(wd, ignore_errors=True)
